@@ -119,6 +119,8 @@ def run(ctx, chk, tier="quick"):
         bind, c = entry_binding(ctx, disp, br, ci)
         if bind is None:
             chk.indeterminate("C01.O6", where_of(disp, br), "call of classify_intervals not found in the dispatch")
+        elif not opts:
+            chk.indeterminate("C01.O6", where_of(disp, br), "the options of the classify parser could not be enumerated")
         else:
             for pname, flag, role in ((ci.params[1], "-s", "storm"), (ci.params[2], "-j", "jump")):
                 v = bind.get(pname)
